@@ -675,7 +675,21 @@ private:
         std::ostringstream oss;
         oss << "STATUS:" << (success ? "OK" : "ERROR") << "\n";
         for (const auto& [key, value] : fields) {
-            oss << key << ':' << value << "\n";
+            // A blank line ends the header block, so a multi-line value is folded: every embedded
+            // newline is followed by a tab, and the client joins such continuation lines again.
+            std::string_view text{value};
+            while (!text.empty() && text.back() == '\n') {
+                text.remove_suffix(1);
+            }
+            oss << key << ':';
+            for (const char ch : text) {
+                if (ch == '\n') {
+                    oss << "\n\t";
+                } else {
+                    oss << ch;
+                }
+            }
+            oss << "\n";
         }
         oss << "\n";
         const auto response = oss.str();
